@@ -16,7 +16,8 @@ ID = 'C19'
 LEVEL = 'exploration'
 RULE = (
     'Hypothesis-generated (retries 0-5, wait, backoff_factor, timeout, retry_on subset incl. None and the empty tuple, per-attempt script of '
-    'success/listed/unlisted exception/overrun, optional caller cancellation instant) run on the virtual-time loop; '
+    'success/listed/unlisted exception/overrun, optional caller cancellation instant; in one case in three 1-2 further callers of the same '
+    'decorated function with scripts of their own are in flight at the same time) run on the virtual-time loop; each call is '
     'compared with a reference model of call instants, waits, outcome and end time. Non-trivial = at least two '
     'attempts were made, or an attempt was cut off by the timeout, or a caller cancellation took effect; distinct by '
     'canonical JSON of the case.'
@@ -70,24 +71,42 @@ def _case(draw):
         imm = draw(st.booleans()) if (d == 0 and kind != 'over') else False  # raise/return with no suspension point at all
         script.append([kind, d, imm])
     cancel_at = draw(st.one_of(st.none(), st.none(), st.integers(0, 240).map(lambda k: k / 8 + 1 / 1024)))
-    return {'retries': retries, 'wait': wait, 'backoff': backoff, 'timeout': timeout, 'retry_on': retry_on, 'script': script, 'cancel_at': cancel_at}
+    c = {'retries': retries, 'wait': wait, 'backoff': backoff, 'timeout': timeout, 'retry_on': retry_on, 'script': script, 'cancel_at': cancel_at}
+    # one case in three: further callers of the SAME decorated function are in flight at the same time, each with a script of its
+    # own (no semaphore, so the calls are independent: attempt counts, waits and outcomes must not leak from one call to another)
+    if draw(st.integers(0, 2)) == 0:
+        others = []
+        for _ in range(draw(st.integers(1, 2))):
+            sc2 = []
+            for _ in range(retries + 2):
+                kind = draw(st.sampled_from(['ok', 'EA', 'EA', 'EB', 'EC', 'TO', 'VE', 'over']))
+                d = draw(q(0, 12))
+                if kind == 'over':
+                    d = timeout + draw(q(1, 8))
+                elif d >= timeout:
+                    d = max(0.0, timeout - 0.125)
+                sc2.append([kind, d, draw(st.booleans()) if (d == 0 and kind != 'over') else False])
+            others.append({'start': draw(st.integers(0, 64)) / 8 + 1 / 4096, 'script': sc2})
+        c['others'] = others
+    return c
 
 
 def strategy(tier):
     return _case()
 
 
-def model(c):
+def model(c, script=None, start=0.0, cancel_at='main'):
     """Reference model -> (call instants, set of acceptable outcomes, end time) ; outcome = ('ret',k) | ('exc',cls,k|None) | ('cancelled',)"""
     ro = None if c['retry_on'] is None else tuple(EXC[n] for n in c['retry_on'])
-    ca = c['cancel_at']
+    ca = c['cancel_at'] if cancel_at == 'main' else cancel_at
+    script = c['script'] if script is None else script
 
     def go(t, k, calls, cutoff_policy):
         # returns list of (calls, outcome, end)
         if ca is not None and ca < t:
             return [(calls, ('cancelled',), ca)]
         calls = calls + [t]
-        kind, d, _imm = c['script'][k]
+        kind, d, _imm = script[k]
         end = t + min(d, c['timeout'])
         if ca is not None and ca < end:
             return [(calls, ('cancelled',), ca)]
@@ -117,22 +136,28 @@ def model(c):
                 res.append((calls, ('exc', exc, idx), t))
         return res
 
-    return go(0.0, 0, [], None)
+    return go(start, 0, [], None)
 
 
 def run_impl(c):
+    """-> {caller: {'starts','ends','raised','out','end'}}; caller 'T' is the main one, 'O0', 'O1' the concurrent others"""
     from bubus.helpers import retry
 
-    starts, ends, raised = [], [], {}
+    callers = {'T': {'script': c['script'], 'start': 0.0, 'cancel_at': c['cancel_at']}}
+    for n, o in enumerate(c.get('others') or []):
+        callers[f'O{n}'] = {'script': o['script'], 'start': o['start'], 'cancel_at': None}
+    rec = {t: {'starts': [], 'ends': [], 'raised': {}} for t in callers}
     res = {}
     ro = None if c['retry_on'] is None else tuple(EXC[n] for n in c['retry_on'])
     with fresh_loop() as loop:
 
         @retry(wait=c['wait'], retries=c['retries'], timeout=c['timeout'], retry_on=ro, backoff_factor=c['backoff'])
         async def f(tag, *, kw=None):
-            k = len(starts)
-            starts.append(loop.time())
-            kind, d, imm = c['script'][k] if k < len(c['script']) else ('ok', 0, True)
+            r = rec[tag]
+            script = callers[tag]['script']
+            k = len(r['starts'])
+            r['starts'].append(loop.time())
+            kind, d, imm = script[k] if k < len(script) else ('ok', 0, True)
             try:
                 if not imm:
                     await asyncio.sleep(d)
@@ -141,91 +166,112 @@ def run_impl(c):
                 if kind == 'over':
                     return 'late'
                 ex = EXC[kind](k)
-                raised[k] = ex
+                r['raised'][k] = ex
                 raise ex
             finally:
-                ends.append(loop.time())
+                r['ends'].append(loop.time())
 
-        async def main():
-            t = asyncio.ensure_future(f('T', kw='K'))
-            if c['cancel_at'] is not None:
-                loop.call_at(c['cancel_at'], t.cancel)
+        async def one(tag):
+            info = callers[tag]
+            if info['start']:
+                await asyncio.sleep(info['start'])
+            t = asyncio.ensure_future(f(tag, kw='K' + tag))
+            if info['cancel_at'] is not None:
+                loop.call_at(info['cancel_at'], t.cancel)
             try:
                 r = await t
-                res['out'] = ('ret', r)
+                rec[tag]['out'] = ('ret', r)
             except asyncio.CancelledError:
-                res['out'] = ('cancelled',)
+                rec[tag]['out'] = ('cancelled',)
             except BaseException as e:  # noqa
-                res['out'] = ('exc', e)
-            res['end'] = loop.time()
-            n = len(starts)
+                rec[tag]['out'] = ('exc', e)
+            rec[tag]['end'] = loop.time()
+
+        async def main():
+            await asyncio.gather(*(one(t) for t in callers))
+            n = {t: len(rec[t]['starts']) for t in callers}
             await asyncio.sleep(200)  # no further calls afterwards
-            res['late_calls'] = len(starts) - n
+            for t in callers:
+                rec[t]['late_calls'] = len(rec[t]['starts']) - n[t]
 
         try:
             loop.run_until_complete(main())
         except Hang as e:
             res['hang'] = str(e)
-    return starts, ends, raised, res
+    return callers, rec, res
 
 
-def run_case(c):
+def _judge_caller(c, tag, info, r):
+    """violations for one caller against its own reference model"""
     viol = []
-    classes = []
-    starts, ends, raised, res = run_impl(c)
-    if 'hang' in res or 'out' not in res:
-        return {'viol': [('C19.hang', f'wrapper never returned: {res.get("hang")}')], 'nontrivial': True, 'classes': ['hang'], 'hang': True}
-    out = res['out']
+    starts, ends, raised, out = r['starts'], r['ends'], r['raised'], r['out']
+    who = '' if tag == 'T' else f'[concurrent caller {tag}] '
     n = len(starts)
     # --- model-free invariants
     if n > c['retries'] + 1:
-        viol.append(('C19.a', f'{n} calls > retries+1={c["retries"] + 1}'))
-    if res.get('late_calls'):
-        viol.append(('C19.g', f'{res["late_calls"]} further calls after the wrapper returned/raised'))
+        viol.append(('C19.a', f'{who}{n} calls > retries+1={c["retries"] + 1}'))
+    if r.get('late_calls'):
+        viol.append(('C19.g', f'{who}{r["late_calls"]} further calls after the wrapper returned/raised'))
     for k in range(n - 1):
         if k < len(ends):
             gap = starts[k + 1] - ends[k]
             want = c['wait'] * (c['backoff'] ** k)
             if abs(gap - want) > 1e-9:
-                viol.append(('C19.b', f'wait before attempt {k + 2} was {gap}, promised {want}'))
+                viol.append(('C19.b', f'{who}wait before attempt {k + 2} was {gap}, promised {want}'))
                 break
     for k in range(min(n, len(ends))):
         if ends[k] - starts[k] > c['timeout'] + 1e-9:
-            viol.append(('C19.f', f'attempt {k + 1} ran {ends[k] - starts[k]} > timeout {c["timeout"]}'))
+            viol.append(('C19.f', f'{who}attempt {k + 1} ran {ends[k] - starts[k]} > timeout {c["timeout"]}'))
             break
     # --- reference model
-    accepted = model(c)
+    accepted = model(c, info['script'], info['start'], info['cancel_at'])
     ok = False
     why = []
     for mcalls, mo, mend in accepted:
         if [round(x, 9) for x in starts] != [round(x, 9) for x in mcalls]:
-            why.append(('C19.b', f'call instants {starts} != model {mcalls}'))
+            why.append(('C19.b', f'{who}call instants {starts} != model {mcalls}'))
             continue
         if mo[0] == 'ret':
-            if not (out[0] == 'ret' and out[1] == ('val', mo[1], 'T', 'K')):
-                why.append(('C19.c', f'expected return of attempt {mo[1] + 1}, got {out!r}'))
+            if not (out[0] == 'ret' and out[1] == ('val', mo[1], tag, 'K' + tag)):
+                why.append(('C19.c', f'{who}expected return of attempt {mo[1] + 1}, got {out!r}'))
                 continue
         elif mo[0] == 'cancelled':
             if out[0] != 'cancelled':
-                why.append(('C19.g', f'caller cancelled at {c["cancel_at"]} but wrapper outcome was {out!r}'))
+                why.append(('C19.g', f'{who}caller cancelled at {info["cancel_at"]} but wrapper outcome was {out!r}'))
                 continue
         else:
             if out[0] != 'exc' or not isinstance(out[1], mo[1]):
-                why.append(('C19.d' if (len(mcalls) <= c['retries']) else 'C19.e', f'expected {mo[1].__name__} to propagate, got {out!r}'))
+                why.append(('C19.d' if (len(mcalls) <= c['retries']) else 'C19.e', f'{who}expected {mo[1].__name__} to propagate, got {out!r}'))
                 continue
             if mo[2] is not None and out[1] is not raised.get(mo[2]):
-                why.append(('C19.d' if (len(mcalls) <= c['retries']) else 'C19.e', f'propagated exception is not the object raised by attempt {mo[2] + 1}'))
+                why.append(('C19.d' if (len(mcalls) <= c['retries']) else 'C19.e', f'{who}propagated exception is not the object raised by attempt {mo[2] + 1}'))
                 continue
-        if abs(res['end'] - mend) > 1e-9:
-            why.append(('C19.c' if mo[0] == 'ret' else 'C19.e', f'wrapper finished at {res["end"]}, model says {mend}'))
+        if abs(r['end'] - mend) > 1e-9:
+            why.append(('C19.c' if mo[0] == 'ret' else 'C19.e', f'{who}wrapper finished at {r["end"]}, model says {mend}'))
             continue
         ok = True
         break
     if not ok and why and not viol:
         viol.append(why[0])
-    elif not ok and why:
-        pass
-    mo = accepted[0][1]
+    return viol, accepted
+
+
+def run_case(c):
+    viol = []
+    classes = []
+    callers, rec, res = run_impl(c)
+    if 'hang' in res or any('out' not in r for r in rec.values()):
+        return {'viol': [('C19.hang', f'wrapper never returned: {res.get("hang")}')], 'nontrivial': True, 'classes': ['hang'], 'hang': True}
+    log = []
+    accepted_main = None
+    for tag, info in callers.items():
+        v, accepted = _judge_caller(c, tag, info, rec[tag])
+        viol.extend(v)
+        if tag == 'T':
+            accepted_main = accepted
+        log += [f'{tag}: starts={rec[tag]["starts"]}', f'{tag}: ends={rec[tag]["ends"]}', f'{tag}: out={rec[tag]["out"]!r} end={rec[tag]["end"]}', f'{tag}: model={accepted}']
+    starts, out = rec['T']['starts'], rec['T']['out']
+    n = len(starts)
     cut = any(c['script'][k][0] == 'over' for k in range(min(n, len(c['script']))))
     if n >= 2:
         classes.append('retried')
@@ -237,6 +283,12 @@ def run_case(c):
         classes.append('exhausted' if n == c['retries'] + 1 else 'unlisted-propagated')
     if out[0] == 'ret':
         classes.append('returned')
-    if len(accepted) > 1:
+    if len(accepted_main) > 1:
         classes.append('ambiguous-cutoff-vs-retry_on')
-    return {'viol': viol, 'nontrivial': n >= 2 or cut or out[0] == 'cancelled', 'classes': classes, 'log': [f'starts={starts}', f'ends={ends}', f'out={out!r} end={res["end"]}', f'model={accepted}']}
+    if len(callers) > 1:
+        classes.append(f'concurrent-callers={len(callers)}')
+        # did two calls actually overlap in time?
+        spans = [(rec[t]['starts'][0], rec[t]['end']) for t in callers if rec[t]['starts']]
+        if any(a[0] < b[1] and b[0] < a[1] for i, a in enumerate(spans) for b in spans[i + 1 :]):
+            classes.append('concurrent-calls-overlap')
+    return {'viol': viol[:1] if viol else [], 'nontrivial': n >= 2 or cut or out[0] == 'cancelled', 'classes': classes, 'log': log}
